@@ -53,8 +53,8 @@ pub fn by_id(id: &str) -> Option<PropertyCheck> {
 pub fn guided_for(id: &str) -> Vec<crate::engine::GuidedSpec> {
     let t: &[(&str, u64, u32)] = match id {
         "C01" => &[("e2e-outcomes", 2_000_000, 4096), ("e2e-faults", 1_000_000, 4096)],
-        "C02" => &[("identity-e2e", 2_000_000, 4096), ("identity-faults", 1_000_000, 4096), ("tcp-channel", 1_000_000, 4096)],
-        "C03" => &[("adversarial", 2_000_000, 4096), ("state-history", 2_000_000, 4096)],
+        "C02" => &[("identity-e2e", 2_000_000, 4096), ("identity-faults", 1_000_000, 4096), ("tcp-channel", 500_000, 4096)],
+        "C03" => &[("adversarial", 2_000_000, 4096), ("state-history", 1_000_000, 4096)],
         "C04" => &[("view-pbt", 3_000_000, 2048), ("recv-corrupt", 2_000_000, 4096)],
         "C05" => &[("synthetic", 2_000_000, 8192)],
         "C06" => &[("schedule", 2_000_000, 4096), ("schedule-faults", 1_000_000, 4096)],
@@ -69,7 +69,7 @@ pub fn guided_for(id: &str) -> Vec<crate::engine::GuidedSpec> {
         "C15" => &[("flows", 2_000_000, 8192), ("flows-wide", 500_000, 8192)],
         "C16" => &[("builder", 2_000_000, 1024), ("cli-run", 1_000_000, 1024), ("layering", 300_000, 4096)],
         "C17" => &[("ui-ops", 150_000, 4096), ("ui-nav", 150_000, 4096), ("ui-settings", 100_000, 4096)],
-        "C18" => &[("privacy", 150_000, 4096)],
+        "C18" => &[("privacy", 20_000, 4096)],
         "C19" => &[("nat-e2e", 1_000_000, 4096), ("synthetic", 2_000_000, 4096)],
         _ => &[],
     };
